@@ -10,8 +10,8 @@ def gen_case(rng, i, nprocs, big=False, nops=None):
     hints = []
     if rng.random() < 0.3:
         hints.append("nc_ibuf_size:%d" % rng.choice([1, 16, 64, 512]))
-    if rng.random() < 0.3:
-        hints.append("nc_in_place_swap:%s" % rng.choice(["enable", "disable", "auto"]))
+    if rng.random() < 0.5:
+        hints.append("nc_in_place_swap:%s" % rng.choice(["enable", "enable", "disable", "auto"]))
     if rng.random() < 0.2:
         hints.append("nc_var_align_size:%d" % rng.choice([1, 4, 8, 64, 512]))
     if rng.random() < 0.15:
